@@ -49,6 +49,7 @@ type Dataset struct {
 	CompoundErr string   `json:"compound_err,omitempty"`
 	Slice       string   `json:"slice,omitempty"` // Options.Slices: rendering of two partial reads
 	SliceErr    string   `json:"slice_err,omitempty"`
+	Sels        []SelObs `json:"sels,omitempty"` // Options.SelSeeds: generated partial reads
 
 	Attrs    []Attr `json:"attrs"`
 	AttrsErr string `json:"attrs_err,omitempty"`
@@ -75,10 +76,137 @@ type File struct {
 	Panics    []string            `json:"panics,omitempty"`
 }
 
+// Sel is a hyperslab selection (all four tuples given).
+type Sel struct {
+	Start, Count, Stride, Block []uint64
+	Slice                       bool // stride = block = 1: also expressible through ReadSlice
+}
+
+// SelObs is one generated partial read: the values as float64 bit patterns, or the error.
+type SelObs struct {
+	Sel  Sel      `json:"sel"`
+	Bits []uint64 `json:"bits,omitempty"`
+	Err  string   `json:"err,omitempty"`
+}
+
+// GenSel derives an in-bounds selection on dims from a seed (splitmix steps; a pure function of its arguments).
+func GenSel(seed uint64, dims []uint64) Sel {
+	next := func() uint64 {
+		seed += 0x9E3779B97F4A7C15
+		z := seed
+		z = (z ^ (z >> 30)) * 0xBF58476D1CE4E5B9
+		z = (z ^ (z >> 27)) * 0x94D049BB133111EB
+		return z ^ (z >> 31)
+	}
+	r := len(dims)
+	s := Sel{Start: make([]uint64, r), Count: make([]uint64, r), Stride: make([]uint64, r), Block: make([]uint64, r), Slice: true}
+	plain := next()%4 == 0 // a quarter of the selections are plain boxes (ReadSlice)
+	for i, n := range dims {
+		if n == 0 {
+			s.Count[i], s.Stride[i], s.Block[i] = 0, 1, 1
+			continue
+		}
+		if next()%3 == 0 {
+			s.Start[i], s.Count[i], s.Stride[i], s.Block[i] = 0, n, 1, 1
+			continue
+		}
+		b := uint64(1)
+		if !plain && n > 1 {
+			b = 1 + next()%minU(n, 3)
+		}
+		st := b
+		if !plain {
+			st = b + next()%4
+		}
+		start := next() % (n - b + 1)
+		maxCount := (n-start-b)/st + 1
+		cnt := 1 + next()%maxCount
+		if plain {
+			// a box: count elements, stride 1
+			b, st = 1, 1
+			cnt = 1 + next()%(n-start)
+		}
+		s.Start[i], s.Count[i], s.Stride[i], s.Block[i] = start, cnt, st, b
+		if st != 1 || b != 1 {
+			s.Slice = false
+		}
+	}
+	return s
+}
+
+func minU(a, b uint64) uint64 {
+	if a < b {
+		return a
+	}
+	return b
+}
+
+// Indices lists the row-major element indices of dims that the selection picks, in the order a hyperslab read returns them.
+func (s Sel) Indices(dims []uint64) []int {
+	r := len(dims)
+	coords := make([][]uint64, r)
+	total := 1
+	for i := 0; i < r; i++ {
+		for c := uint64(0); c < s.Count[i]; c++ {
+			for b := uint64(0); b < s.Block[i]; b++ {
+				coords[i] = append(coords[i], s.Start[i]+c*s.Stride[i]+b)
+			}
+		}
+		total *= len(coords[i])
+	}
+	if r == 0 || total == 0 {
+		return nil
+	}
+	out := make([]int, 0, total)
+	idx := make([]int, r)
+	for {
+		lin := uint64(0)
+		for i := 0; i < r; i++ {
+			lin = lin*dims[i] + coords[i][idx[i]]
+		}
+		out = append(out, int(lin))
+		i := r - 1
+		for ; i >= 0; i-- {
+			idx[i]++
+			if idx[i] < len(coords[i]) {
+				break
+			}
+			idx[i] = 0
+		}
+		if i < 0 {
+			return out
+		}
+	}
+}
+
+// toBits converts the typed slice a partial read returns into float64 bit patterns (the same widening Read() applies).
+func toBits(v any) ([]uint64, bool) {
+	rv := reflect.ValueOf(v)
+	if rv.Kind() != reflect.Slice {
+		return nil, false
+	}
+	out := make([]uint64, rv.Len())
+	for i := range out {
+		e := rv.Index(i)
+		switch {
+		case e.CanInt():
+			out[i] = math.Float64bits(float64(e.Int()))
+		case e.CanUint():
+			out[i] = math.Float64bits(float64(e.Uint()))
+		case e.CanFloat():
+			out[i] = math.Float64bits(e.Float())
+		default:
+			return nil, false
+		}
+	}
+	return out, true
+}
+
 // Options limit how much is read.
 type Options struct {
-	SkipData bool // do not call Read/ReadStrings/ReadCompound
-	Slices   bool // also read two fixed partial selections per dataset (one column; every second element of the last dimension)
+	SkipData bool     // do not call Read/ReadStrings/ReadCompound
+	Slices   bool     // also read two fixed partial selections per dataset (one column; every second element of the last dimension)
+	SelSeeds []uint64 // per seed one generated in-bounds selection per dataset, read through ReadHyperslab (and ReadSlice when it is a plain box)
 }
 
 func safe(f *File, what string, fn func()) {
@@ -367,6 +495,41 @@ func Read(path string, opt Options) *File {
 					d.Slice = Render(v1) + " | " + Render(v2)
 				})
 			}
+			if len(d.Dims) > 0 && NumSelectable(d.Dims) {
+				for _, sd := range opt.SelSeeds {
+					h := sd
+					for _, ch := range []byte(p) {
+						h = h*1099511628211 + uint64(ch)
+					}
+					h = h*1099511628211 + d.Addr + uint64(d.Size)
+					sel := GenSel(h, d.Dims)
+					so := SelObs{Sel: sel}
+					safe(f, p+" ReadHyperslab", func() {
+						v, err := o.ReadHyperslab(&hdf5.HyperslabSelection{Start: sel.Start, Count: sel.Count, Stride: sel.Stride, Block: sel.Block})
+						if err != nil {
+							so.Err = errStr(err)
+							return
+						}
+						bits, ok := toBits(v)
+						if !ok {
+							so.Err = fmt.Sprintf("result type %T not understood", v)
+							return
+						}
+						so.Bits = bits
+						if sel.Slice {
+							v2, err := o.ReadSlice(sel.Start, sel.Count)
+							if err != nil {
+								so.Err = "ReadSlice: " + errStr(err)
+								return
+							}
+							if b2, ok := toBits(v2); !ok || !reflect.DeepEqual(b2, bits) {
+								so.Err = "MISMATCH: ReadSlice and ReadHyperslab disagree on the same box"
+							}
+						}
+					})
+					d.Sels = append(d.Sels, so)
+				}
+			}
 			d.Attrs, d.AttrsErr = attrsOf(f, p, o.Attributes)
 			if _, dup := f.Datasets[p]; dup {
 				p = p + "#dup"
@@ -430,4 +593,19 @@ func diffDataset(a, b *Dataset) string {
 		}
 	}
 	return "?"
+}
+
+// NumSelectable: the extent is small enough for generated partial reads (at most 2^20 elements, none of the dims zero).
+func NumSelectable(dims []uint64) bool {
+	n := uint64(1)
+	for _, d := range dims {
+		if d == 0 || d > 1<<20 {
+			return false
+		}
+		n *= d
+		if n > 1<<20 {
+			return false
+		}
+	}
+	return true
 }
